@@ -164,6 +164,9 @@ func (env *SpecEnv) toSeq(v *Value) *SeqV {
 			l := x.eng.layout(u.Elem())
 			if len(l) == 3 && l[0].Sort == SArr {
 				g := x.Load(env.st, x.ptrOf(v))
+				if env.quant == 0 {
+					x.ctx.Assume(And(Le(IntLit(0), g.C[1]), Le(IntLit(0), g.C[2]), Le(g.C[2], BigLit(pow2(40)))))
+				}
 				return rowSeq(x.ctx.Name("garr", g.C[0]), g.C[1], g.C[2])
 			}
 		}
